@@ -358,266 +358,3 @@ pub broadcast proof fn law_iff(f: BF, g: BF) ensures #[trigger] bf_ite(f, g, bf_
 pub broadcast proof fn law_xor(f: BF, g: BF) ensures #[trigger] bf_ite(f, bf_not(g), g) == bf_xor(f, g) { assert(bf_ite(f, bf_not(g), g) =~= bf_xor(f, g)); }
 pub broadcast proof fn law_var(v: usize) ensures #[trigger] bf_node(v, bf_const(true), bf_const(false)) == bf_var(v) { assert(bf_node(v, bf_const(true), bf_const(false)) =~= bf_var(v)); }
 
-} // mod sp
-use sp::*;
-
-pub mod axioms {
-    use super::*;
-    #[verifier::external_body]
-    pub broadcast proof fn axiom_key_bddnode() ensures #[trigger] obeys_key_model::<BddNode>() {}
-    #[verifier::external_body]
-    pub broadcast proof fn axiom_key_ite() ensures #[trigger] obeys_key_model::<(Term, Term, Term)>() {}
-    #[verifier::external_body]
-    pub broadcast proof fn axiom_key_var() ensures #[trigger] obeys_key_model::<Var>() {}
-    #[verifier::external_body]
-    pub broadcast proof fn axiom_key_term() ensures #[trigger] obeys_key_model::<Term>() {}
-    #[verifier::external_body]
-    pub broadcast proof fn axiom_key_restrict() ensures #[trigger] obeys_key_model::<(Term, Var, bool)>() {}
-}
-broadcast use {sp::lemma_ext_den, group_hash_axioms, axioms::axiom_key_bddnode, axioms::axiom_key_ite, axioms::axiom_key_restrict, axioms::axiom_key_var, axioms::axiom_key_term, sp::lemma_ext_supp, sp::lemma_ext_paths, sp::lemma_ext_depth};
-
-// a memo entry has a *shape* part (C06: handles in range, ordering facts used for termination and for node's precondition)
-// and a *denotation* part (C07/C11: the cached answer is the right function)
-pub open spec fn ite_entry_shape(nodes: Seq<BddNode>, k: (Term, Term, Term), v: Term) -> bool {
-    &&& k.0.0 < nodes.len() && k.1.0 < nodes.len() && k.2.0 < nodes.len() && v.0 < nodes.len()
-    &&& topvar(nodes, v.0 as int) >= min3(topvar(nodes, k.0.0 as int), topvar(nodes, k.1.0 as int), topvar(nodes, k.2.0 as int))
-}
-pub open spec fn ite_entry_den(nodes: Seq<BddNode>, k: (Term, Term, Term), v: Term) -> bool {
-    den(nodes, v.0 as int) == bf_ite(den(nodes, k.0.0 as int), den(nodes, k.1.0 as int), den(nodes, k.2.0 as int))
-}
-pub open spec fn ite_entry_ok(nodes: Seq<BddNode>, k: (Term, Term, Term), v: Term) -> bool { ite_entry_shape(nodes, k, v) && ite_entry_den(nodes, k, v) }
-pub open spec fn restrict_entry_shape(nodes: Seq<BddNode>, k: (Term, Var, bool), v: Term) -> bool {
-    &&& k.0.0 < nodes.len() && v.0 < nodes.len()
-    &&& topvar(nodes, v.0 as int) >= topvar(nodes, k.0.0 as int)
-    &&& topvar(nodes, v.0 as int) != k.1.0
-}
-pub open spec fn restrict_entry_den(nodes: Seq<BddNode>, k: (Term, Var, bool), v: Term) -> bool {
-    den(nodes, v.0 as int) == bf_restrict(den(nodes, k.0.0 as int), k.1.0, k.2)
-}
-pub open spec fn restrict_entry_ok(nodes: Seq<BddNode>, k: (Term, Var, bool), v: Term) -> bool { restrict_entry_shape(nodes, k, v) && restrict_entry_den(nodes, k, v) }
-pub proof fn lemma_ext_entries(o: Seq<BddNode>, n: Seq<BddNode>)
-    requires ext(o, n),
-    ensures
-        forall|k: (Term, Term, Term), v: Term| #[trigger] ite_entry_shape(o, k, v) ==> ite_entry_shape(n, k, v),
-        forall|k: (Term, Var, bool), v: Term| #[trigger] restrict_entry_shape(o, k, v) ==> restrict_entry_shape(n, k, v),
-        forall|k: (Term, Term, Term), v: Term| ite_entry_shape(o, k, v) && #[trigger] ite_entry_den(o, k, v) ==> ite_entry_den(n, k, v),
-        forall|k: (Term, Var, bool), v: Term| restrict_entry_shape(o, k, v) && #[trigger] restrict_entry_den(o, k, v) ==> restrict_entry_den(n, k, v),
-{
-}
-
-#[verifier::external_body]
-fn __o_union_copied_collect(a: &HashSet<Var>, b: &HashSet<Var>) -> (r: HashSet<Var>) ensures r@ == a@.union(b@) { a.union(b).copied().collect() }
-#[verifier::external_body]
-fn __o_hashset_clone(a: &HashSet<Var>) -> (r: HashSet<Var>) ensures r@ == a@ { a.clone() }
-#[verifier::external_body]
-fn __o_max_usize(a: usize, b: usize) -> (r: usize) ensures r == (if a >= b { a } else { b }) { std::cmp::max(a, b) }
-#[verifier::external_body]
-fn __o_pow2(e: u32) -> (r: usize) requires e < 64 ensures r == vstd::arithmetic::power2::pow2(e as nat) { 2usize.pow(e) }
-
-
-// Each component of the representation invariant is a predicate over the *views of the fields it reads*, so that an
-// operation that leaves those fields alone preserves it by congruence (no quantifier reasoning, stable proofs).
-// ---- C06 / C11: node table reduced + ordered, unique table exact (=> no duplicates), memo tables hold only correct entries
-pub open spec fn core_ok(nodes: Seq<BddNode>, cache: Map<BddNode, Term>, ite: Map<(Term, Term, Term), Term>, rc: Map<(Term, Var, bool), Term>) -> bool {
-    &&& nodes_wf(nodes)
-    &&& forall|n: BddNode| #[trigger] cache.contains_key(n) ==> 2 <= cache[n].0 < nodes.len() && nodes[cache[n].0 as int] == n
-    &&& forall|i: int| 2 <= i < nodes.len() ==> cache.contains_key(#[trigger] nodes[i]) && cache[nodes[i]].0 == i
-    &&& forall|k: (Term, Term, Term)| #[trigger] ite.contains_key(k) ==> ite_entry_shape(nodes, k, ite[k])
-    &&& forall|k: (Term, Var, bool)| #[trigger] rc.contains_key(k) ==> restrict_entry_shape(nodes, k, rc[k])
-}
-// ---- C07 / C11: every memoised answer denotes the right function
-pub open spec fn memo_ok(nodes: Seq<BddNode>, ite: Map<(Term, Term, Term), Term>, rc: Map<(Term, Var, bool), Term>) -> bool {
-    &&& forall|k: (Term, Term, Term)| #[trigger] ite.contains_key(k) ==> ite_entry_den(nodes, k, ite[k])
-    &&& forall|k: (Term, Var, bool)| #[trigger] rc.contains_key(k) ==> restrict_entry_den(nodes, k, rc[k])
-}
-// ---- C13 (and C07 through the early exit of restrict): the stored dependency sets are the supports
-pub open spec fn deps_ok(nodes: Seq<BddNode>, vd: Seq<HashSet<Var>>) -> bool {
-    &&& vd.len() == nodes.len()
-    &&& forall|i: int| 0 <= i < nodes.len() ==> (#[trigger] vd[i])@ == supp(nodes, i)
-}
-// ---- C13 / C11: the count table: every entry present is right; with ad-hoc counting every handle has an entry
-pub open spec fn counts_present_ok(nodes: Seq<BddNode>, cc: Map<Term, CountNode>) -> bool {
-    forall|t: Term| #[trigger] cc.contains_key(t) ==> t.0 < nodes.len() && cc_ok(nodes, t.0 as int, cc[t])
-}
-#[cfg(feature = "adhoccounting")]
-pub open spec fn counts_ok(nodes: Seq<BddNode>, cc: Map<Term, CountNode>) -> bool {
-    counts_present_ok(nodes, cc) && forall|t: Term| t.0 < nodes.len() ==> #[trigger] cc.contains_key(t)
-}
-#[cfg(not(feature = "adhoccounting"))]
-pub open spec fn counts_ok(nodes: Seq<BddNode>, cc: Map<Term, CountNode>) -> bool { counts_present_ok(nodes, cc) }
-// ---- frame lemmas for `Bdd::node` (the heavy quantifier reasoning lives here, once, outside the function bodies)
-pub proof fn lemma_core_push(o: Seq<BddNode>, n: Seq<BddNode>, co: Map<BddNode, Term>, cn: Map<BddNode, Term>, ite: Map<(Term, Term, Term), Term>, rc: Map<(Term, Var, bool), Term>, node: BddNode, nt: Term)
-    requires
-        core_ok(o, co, ite, rc), n == o.push(node), !co.contains_key(node), cn == co.insert(node, nt), nt.0 == o.len(),
-        node.var.0 < usize::MAX - 1, node.lo.0 < o.len(), node.hi.0 < o.len(), node.lo != node.hi,
-        node.var.0 < topvar(o, node.lo.0 as int), node.var.0 < topvar(o, node.hi.0 as int),
-    ensures core_ok(n, cn, ite, rc), ext(o, n),
-{
-    assert(ext(o, n));
-    lemma_ext_entries(o, n);
-    assert forall|i: int| 2 <= i < n.len() implies #[trigger] inner_ok(n, i) by { if i < o.len() { assert(inner_ok(o, i)); } }
-    assert forall|i: int| 2 <= i < n.len() implies cn.contains_key(#[trigger] n[i]) && cn[n[i]].0 == i by {
-        if i < o.len() { assert(co.contains_key(o[i])); assert(o[i] != node); }
-    }
-    assert forall|m: BddNode| #[trigger] cn.contains_key(m) implies 2 <= cn[m].0 < n.len() && n[cn[m].0 as int] == m by {
-        if m != node { assert(co.contains_key(m)); }
-    }
-    assert forall|k: (Term, Term, Term)| #[trigger] ite.contains_key(k) implies ite_entry_shape(n, k, ite[k]) by { assert(ite_entry_shape(o, k, ite[k])); }
-    assert forall|k: (Term, Var, bool)| #[trigger] rc.contains_key(k) implies restrict_entry_shape(n, k, rc[k]) by { assert(restrict_entry_shape(o, k, rc[k])); }
-}
-pub proof fn lemma_memo_ext(o: Seq<BddNode>, n: Seq<BddNode>, co: Map<BddNode, Term>, ite: Map<(Term, Term, Term), Term>, rc: Map<(Term, Var, bool), Term>)
-    requires core_ok(o, co, ite, rc), memo_ok(o, ite, rc), ext(o, n),
-    ensures memo_ok(n, ite, rc),
-{
-    lemma_ext_entries(o, n);
-    assert forall|k: (Term, Term, Term)| #[trigger] ite.contains_key(k) implies ite_entry_den(n, k, ite[k]) by { assert(ite_entry_shape(o, k, ite[k])); assert(ite_entry_den(o, k, ite[k])); }
-    assert forall|k: (Term, Var, bool)| #[trigger] rc.contains_key(k) implies restrict_entry_den(n, k, rc[k]) by { assert(restrict_entry_shape(o, k, rc[k])); assert(restrict_entry_den(o, k, rc[k])); }
-}
-pub proof fn lemma_deps_push(o: Seq<BddNode>, n: Seq<BddNode>, vo: Seq<HashSet<Var>>, vn: Seq<HashSet<Var>>, node: BddNode)
-    requires
-        deps_ok(o, vo), n == o.push(node), node.lo.0 < o.len(), node.hi.0 < o.len(), o.len() >= 2,
-        vn.len() == vo.len() + 1, forall|i: int| 0 <= i < vo.len() ==> vn[i] == vo[i],
-        vn[o.len() as int]@ =~= supp(o, node.lo.0 as int).union(supp(o, node.hi.0 as int)).insert(node.var),
-    ensures deps_ok(n, vn),
-{
-    assert(ext(o, n));
-    assert(guard(n, o.len() as int));
-    assert forall|i: int| 0 <= i < n.len() implies (#[trigger] vn[i])@ == supp(n, i) by {
-        if i < o.len() { lemma_ext_supp(o, n, i); assert(vo[i]@ == supp(o, i)); }
-        else {
-            lemma_ext_supp(o, n, node.lo.0 as int); lemma_ext_supp(o, n, node.hi.0 as int);
-            assert(supp(n, i) == supp(n, node.lo.0 as int).union(supp(n, node.hi.0 as int)).insert(node.var));
-            assert(vn[i]@ =~= supp(n, i));
-        }
-    }
-}
-// the entry computed for a new inner node from the entries of its children (paths and depth; `mok` = the model-count
-// component is right, which the caller establishes per configuration)
-pub proof fn lemma_cc_entry(o: Seq<BddNode>, n: Seq<BddNode>, node: BddNode, cl: CountNode, ch: CountNode, e: CountNode)
-    requires
-        n == o.push(node), node.lo.0 < o.len(), node.hi.0 < o.len(), o.len() >= 2,
-        cc_paths_ok(o, node.lo.0 as int, cl), cc_paths_ok(o, node.hi.0 as int, ch),
-        e.1.cmodels == cl.1.cmodels + ch.1.cmodels, e.1.models == cl.1.models + ch.1.models,
-        e.2 == (if cl.2 >= ch.2 { cl.2 } else { ch.2 }) + 1,
-    ensures cc_paths_ok(n, o.len() as int, e),
-{
-    assert(ext(o, n));
-    assert(guard(n, o.len() as int));
-    lemma_ext_paths(o, n, node.lo.0 as int); lemma_ext_paths(o, n, node.hi.0 as int);
-    lemma_ext_depth(o, n, node.lo.0 as int); lemma_ext_depth(o, n, node.hi.0 as int);
-}
-// model-count component of the entry `node` computes with ad-hoc model counting (and of what the memoised counter stores)
-#[cfg(any(not(feature = "adhoccounting"), feature = "adhoccountmodels"))]
-pub proof fn lemma_cc_models_entry(o: Seq<BddNode>, n: Seq<BddNode>, node: BddNode, cl: CountNode, ch: CountNode, e: CountNode)
-    requires
-        n == o.push(node), node.lo.0 < o.len(), node.hi.0 < o.len(), o.len() >= 2,
-        cc_ok(o, node.lo.0 as int, cl), cc_ok(o, node.hi.0 as int, ch),
-        e.0.cmodels == cl.0.cmodels * (if cl.2 > ch.2 { 1int } else { pow2(exp32(ch.2 - cl.2)) as int }) + ch.0.cmodels * (if cl.2 > ch.2 { pow2(exp32(cl.2 - ch.2)) as int } else { 1int }),
-        e.0.models == cl.0.models * (if cl.2 > ch.2 { 1int } else { pow2(exp32(ch.2 - cl.2)) as int }) + ch.0.models * (if cl.2 > ch.2 { pow2(exp32(cl.2 - ch.2)) as int } else { 1int }),
-    ensures cc_models_ok(n, o.len() as int, e.0),
-{
-    assert(ext(o, n));
-    assert(guard(n, o.len() as int));
-    lemma_ext_models(o, n, node.lo.0 as int); lemma_ext_models(o, n, node.hi.0 as int);
-    lemma_ext_depth(o, n, node.lo.0 as int); lemma_ext_depth(o, n, node.hi.0 as int);
-    vstd::arithmetic::power2::lemma2_to64();
-    assert(pow2(0) == 1);
-}
-pub proof fn lemma_counts_push(o: Seq<BddNode>, n: Seq<BddNode>, co: Map<Term, CountNode>, cn: Map<Term, CountNode>, node: BddNode, e: CountNode, nt: Term)
-    requires counts_ok(o, co), n == o.push(node), cn == co.insert(nt, e), cc_ok(n, o.len() as int, e), nt.0 == o.len(),
-    ensures counts_ok(n, cn),
-{
-    assert(ext(o, n));
-    assert forall|t: Term| #[trigger] cn.contains_key(t) implies t.0 < n.len() && cc_ok(n, t.0 as int, cn[t]) by {
-        if t != nt {
-            assert(co.contains_key(t));
-            lemma_ext_paths(o, n, t.0 as int); lemma_ext_depth(o, n, t.0 as int); lemma_ext_models(o, n, t.0 as int);
-        }
-    }
-    assert forall|t: Term| t.0 < n.len() implies #[trigger] cn.contains_key(t) || !counts_all_present() by {
-        if t.0 < o.len() { if counts_all_present() { lemma_all_present(o, co, t); } } else { assert(t == nt); }
-    }
-    lemma_all_present_intro(n, cn);
-}
-// entries stay right under extension of the node table
-pub proof fn lemma_counts_present_ext(o: Seq<BddNode>, n: Seq<BddNode>, cc: Map<Term, CountNode>)
-    requires counts_present_ok(o, cc), ext(o, n),
-    ensures counts_present_ok(n, cc),
-{
-    assert forall|t: Term| #[trigger] cc.contains_key(t) implies t.0 < n.len() && cc_ok(n, t.0 as int, cc[t]) by {
-        lemma_ext_paths(o, n, t.0 as int); lemma_ext_depth(o, n, t.0 as int); lemma_ext_models(o, n, t.0 as int);
-    }
-}
-#[cfg(feature = "adhoccounting")]
-pub open spec fn counts_all_present() -> bool { true }
-#[cfg(not(feature = "adhoccounting"))]
-pub open spec fn counts_all_present() -> bool { false }
-#[cfg(feature = "adhoccounting")]
-pub proof fn lemma_all_present(nodes: Seq<BddNode>, cc: Map<Term, CountNode>, t: Term)
-    requires counts_ok(nodes, cc), t.0 < nodes.len(), ensures cc.contains_key(t) {}
-#[cfg(not(feature = "adhoccounting"))]
-pub proof fn lemma_all_present(nodes: Seq<BddNode>, cc: Map<Term, CountNode>, t: Term)
-    requires counts_ok(nodes, cc), t.0 < nodes.len(), counts_all_present(), ensures cc.contains_key(t) {}
-#[cfg(feature = "adhoccounting")]
-pub proof fn lemma_all_present_intro(nodes: Seq<BddNode>, cc: Map<Term, CountNode>)
-    requires counts_present_ok(nodes, cc), forall|t: Term| t.0 < nodes.len() ==> #[trigger] cc.contains_key(t) || !counts_all_present(),
-    ensures counts_ok(nodes, cc) {}
-#[cfg(not(feature = "adhoccounting"))]
-pub proof fn lemma_all_present_intro(nodes: Seq<BddNode>, cc: Map<Term, CountNode>)
-    requires counts_present_ok(nodes, cc), ensures counts_ok(nodes, cc) {}
-// memoised model counting is exact except in the documented configuration (C12)
-#[cfg(all(feature = "adhoccounting", not(feature = "adhoccountmodels")))]
-pub open spec fn models_memo_exact() -> bool { false }
-#[cfg(any(not(feature = "adhoccounting"), feature = "adhoccountmodels"))]
-pub open spec fn models_memo_exact() -> bool { true }
-pub open spec fn is_models(nodes: Seq<BddNode>, t: int, c: ModelCounts) -> bool { c.cmodels == models_spec(nodes, t).0 && c.models == models_spec(nodes, t).1 }
-pub open spec fn is_paths(nodes: Seq<BddNode>, t: int, c: ModelCounts) -> bool { c.cmodels == paths_spec(nodes, t).0 && c.models == paths_spec(nodes, t).1 }
-impl Bdd {
-    pub open spec fn wf_core(&self) -> bool { core_ok(self.nodes@, self.cache@, self.ite_cache@, self.restrict_cache@) }
-    pub open spec fn wf_memo(&self) -> bool { memo_ok(self.nodes@, self.ite_cache@, self.restrict_cache@) }
-    #[cfg(feature = "variablelist")]
-    pub open spec fn wf_deps(&self) -> bool { deps_ok(self.nodes@, self.var_deps@) }
-    #[cfg(not(feature = "variablelist"))]
-    pub open spec fn wf_deps(&self) -> bool { true }
-    pub open spec fn wf_counts(&self) -> bool { counts_ok(self.nodes@, self.count_cache@) }
-    // ---- C19: producer side of the streaming mirror
-    #[cfg(feature = "frontend")]
-    pub open spec fn wf_chan(&self) -> bool { self.producer_inv() }
-    #[cfg(not(feature = "frontend"))]
-    pub open spec fn wf_chan(&self) -> bool { true }
-
-    pub open spec fn wf(&self) -> bool { self.wf_core() && self.wf_memo() && self.wf_deps() && self.wf_counts() && self.wf_chan() }
-
-    #[cfg(feature = "variablelist")]
-    pub open spec fn same_deps(&self, o: Bdd) -> bool { self.var_deps == o.var_deps }
-    #[cfg(not(feature = "variablelist"))]
-    pub open spec fn same_deps(&self, o: Bdd) -> bool { true }
-    #[cfg(feature = "frontend")]
-    pub open spec fn same_chan(&self, o: Bdd) -> bool { self.sender == o.sender && self.receiver == o.receiver && self.vx_sent@ == o.vx_sent@ && self.vx_recvd@ == o.vx_recvd@ }
-    #[cfg(not(feature = "frontend"))]
-    pub open spec fn same_chan(&self, o: Bdd) -> bool { true }
-    // frame of the `&self` methods that only touch the (former RefCell) count table
-    pub open spec fn same_but_counts(&self, o: Bdd) -> bool {
-        self.nodes == o.nodes && self.cache == o.cache && self.ite_cache == o.ite_cache && self.restrict_cache == o.restrict_cache && self.same_deps(o) && self.same_chan(o)
-    }
-    #[cfg(feature = "variablelist")]
-    pub open spec fn deps_empty(&self) -> bool { self.var_deps@.len() == 0 }
-    #[cfg(not(feature = "variablelist"))]
-    pub open spec fn deps_empty(&self) -> bool { true }
-    #[cfg(feature = "frontend")]
-    pub open spec fn chan_none(&self) -> bool { self.sender.is_none() && self.receiver.is_none() }
-    #[cfg(not(feature = "frontend"))]
-    pub open spec fn chan_none(&self) -> bool { true }
-    // what serde leaves after an import: node table and unique table as exported (C06), every #[serde(skip)] field empty
-    pub open spec fn wf_imported(&self) -> bool {
-        &&& core_ok(self.nodes@, self.cache@, Map::<(Term, Term, Term), Term>::empty(), Map::<(Term, Var, bool), Term>::empty())
-        &&& self.ite_cache@ =~= Map::<(Term, Term, Term), Term>::empty() && self.restrict_cache@ =~= Map::<(Term, Var, bool), Term>::empty()
-        &&& self.deps_empty() && self.count_cache@ =~= Map::<Term, CountNode>::empty() && self.chan_none()
-    }
-    pub open spec fn active_cnt(&self, var: Var, tl: Seq<Term>, k: int) -> int
-        decreases k
-    { if k <= 0 { 0 } else { self.active_cnt(var, tl, k - 1) + if supp(self.nodes@, tl[var.0 as int].0 as int).contains(Var((k - 1) as usize)) { 1int } else { 0int } } }
-    pub open spec fn impact_cnt(&self, var: Var, tl: Seq<Term>, k: int) -> int
-        decreases k
-    { if k <= 0 { 0 } else { self.impact_cnt(var, tl, k - 1) + if supp(self.nodes@, tl[k - 1].0 as int).contains(var) { 1int } else { 0int } } }
-}
